@@ -23,8 +23,21 @@
 //! `Service::call` itself panics for this request (`CallPanic`: what Buffer / ConcurrencyLimit do when called without
 //! readiness, a `service_fn` closure that panics before its async block) — no future is ever returned; the adapter
 //! catches the unwind around `svc.call(req)` and logs `result c panic`. The limiter's handles stay in use afterwards.
-use crate::mw_limit::{build_algorithm, lat_ns, parse_prog, render_outs, run_prog, FOp};
-use crate::sched::run_scheduled_with;
+//!
+//! Construction paths and several services (header options, all defaulting to what the older op files meant):
+//! `via=builder|new|layer` how the algorithm is built (see `mw_limit`), `alg=enum|direct` whether the service runs over the
+//! `Algorithm` enum or over the concrete `Aimd` / `Vegas`, `lay=new|into` `AdaptiveLimiterLayer::new(a)` or
+//! `a.into_layer()`, `lclone=1` service 0 comes from a CLONE of the layer. `svc=<k>` on `arrive`, `probe`, `manual check /
+//! ready / thread / sched`: service k, built at its first use from the same layer value (even k) or from the clone of the
+//! layer (odd k; with `lclone=1` the other way round) over a clone of the same scripted inner service. As documented, the
+//! services of one layer SHARE the algorithm (the layer holds it in an `Arc`) and nothing else: each has its own
+//! `in_flight` counter, mirror and handles. Probes of a service other than 0 say which (`… svc=<k>`).
+//!
+//! Protocol level: every `manual sched` round and every `manual warm` records the value-level trace of the hooked
+//! atomics with the begin / end of every thread operation (`@tr=`), the limit cell and the in-flight cell being the ones
+//! `limit()` / `in_flight()` load; the model's verified checker confirms or refutes the claim `trace-ok`.
+use crate::mw_limit::{build_algorithm, lat_ns, parse_prog, render_outs, run_prog_traced, trace_text, traced_sequential, FOp};
+use crate::sched::{atrace_push, atrace_take, observe_here, probe_cell, run_scheduled_with, unobserve_here};
 use crate::world::*;
 use std::collections::{BTreeMap, BTreeSet, VecDeque};
 use std::future::Future;
@@ -34,7 +47,9 @@ use std::sync::atomic::Ordering;
 use std::sync::{Arc, Mutex};
 use std::task::{Context, Poll, Waker};
 use tower::{Layer, Service};
-use tower_resilience_adaptive::{AdaptiveError, AdaptiveLimiterLayer, AdaptiveService, Algorithm};
+use tower_resilience_adaptive::{
+    AdaptiveError, AdaptiveLimiterLayer, AdaptiveService, Aimd, Algorithm, ConcurrencyAlgorithm, IntoLayer, Vegas,
+};
 
 /// The scripted inner service, except that `call()` itself panics for a request marked `callpanic=1` (the panic
 /// happens inside `Service::call`, before any future exists). Nothing is logged and no serial number is consumed:
@@ -59,33 +74,93 @@ impl Service<Req> for CallPanic {
     }
 }
 
-type Svc = AdaptiveService<CallPanic, Algorithm>;
-type Fut = <Svc as Service<Req>>::Future;
+/// the algorithm types a service can be built over through the public API (`Algorithm`, `Aimd`, `Vegas`)
+pub trait Alg: ConcurrencyAlgorithm + IntoLayer<Algorithm = Self> + Sized + 'static {}
+impl<T: ConcurrencyAlgorithm + IntoLayer<Algorithm = T> + Sized + 'static> Alg for T {}
 
-pub struct Adapter {
-    svc: Svc,
+type Svc<A> = AdaptiveService<CallPanic, A>;
+type Fut = tower_resilience_adaptive::AdaptiveFuture<Resp, IErr>;
+
+pub struct Adapter<A: Alg> {
+    /// the layer value every service is built from, and a clone of it taken before any service was built (service 0 comes
+    /// from it with `lclone=1`); the other services of odd index (even with `lclone=1`) are built from a clone of the layer
+    /// taken at that moment — after the services before them have been built from the original
+    layer: AdaptiveLimiterLayer<A>,
+    layer2: AdaptiveLimiterLayer<A>,
+    lclone: usize,
+    inner: Inner,
+    svcs: BTreeMap<usize, Svc<A>>,
     /// the inner service's shared state: the readiness answer for the next scripted poll is put there
     shared: Arc<Mutex<InnerShared>>,
-    checked: BTreeMap<usize, Svc>,
+    checked: BTreeMap<usize, Svc<A>>,
     arrived: BTreeSet<usize>,
-    /// persistent handles: the clone and whether its most recent `poll_ready` answered Ready (no call since)
-    handles: BTreeMap<usize, (Svc, bool)>,
-    progs: Vec<String>,
+    /// a caller stays with the service it first named (ahead-of-time check or arrival)
+    home: BTreeMap<usize, usize>,
+    /// persistent handles (per service): the clone and whether its most recent `poll_ready` answered Ready (no call since)
+    handles: BTreeMap<(usize, usize), (Svc<A>, bool)>,
+    progs: BTreeMap<usize, Vec<String>>,
 }
 
-impl Adapter {
-    pub fn new(kv: &Kv) -> Adapter {
-        let layer = AdaptiveLimiterLayer::new(build_algorithm(kv));
+/// the adapter over the algorithm type the header asks for
+pub fn make(kv: &Kv) -> Box<dyn Mw> {
+    if kv.str("alg", "enum") == "direct" {
+        match build_algorithm(kv) {
+            Algorithm::Aimd(a) => Box::new(Adapter::<Aimd>::new(kv, a)),
+            Algorithm::Vegas(v) => Box::new(Adapter::<Vegas>::new(kv, v)),
+        }
+    } else {
+        Box::new(Adapter::<Algorithm>::new(kv, build_algorithm(kv)))
+    }
+}
+
+impl<A: Alg> Adapter<A> {
+    pub fn new(kv: &Kv, alg: A) -> Adapter<A> {
+        let layer = if kv.str("lay", "new") == "into" { alg.into_layer() } else { AdaptiveLimiterLayer::new(alg) };
+        let layer2 = layer.clone();
         let inner = Inner::strict("");
         let shared = inner.shared.clone();
-        Adapter {
-            svc: layer.layer(CallPanic { inner }),
+        let mut a = Adapter {
+            layer,
+            layer2,
+            lclone: kv.u64("lclone", 0) as usize,
+            inner,
+            svcs: BTreeMap::new(),
             shared,
             checked: BTreeMap::new(),
             arrived: BTreeSet::new(),
+            home: BTreeMap::new(),
             handles: BTreeMap::new(),
-            progs: Vec::new(),
+            progs: BTreeMap::new(),
+        };
+        a.svc(0);
+        a
+    }
+    /// service k, built at its first use
+    fn svc(&mut self, k: usize) -> &mut Svc<A> {
+        if !self.svcs.contains_key(&k) {
+            let s = if (k + self.lclone) % 2 == 0 {
+                self.layer.layer(CallPanic { inner: self.inner.clone() })
+            } else if k == 0 {
+                // a clone of the layer taken before any service existed
+                self.layer2.layer(CallPanic { inner: self.inner.clone() })
+            } else {
+                // a clone of the layer taken now, after other services were built from the original
+                self.layer.clone().layer(CallPanic { inner: self.inner.clone() })
+            };
+            self.svcs.insert(k, s);
         }
+        self.svcs.get_mut(&k).unwrap()
+    }
+}
+
+fn svc_of(kv: &Kv) -> usize {
+    kv.u64("svc", 0) as usize
+}
+fn svc_suffix(k: usize) -> String {
+    if k == 0 {
+        String::new()
+    } else {
+        format!(" svc={}", k)
     }
 }
 
@@ -99,11 +174,11 @@ pub fn render(r: Result<Resp, AdaptiveError<IErr>>) -> String {
 
 /// `poll_ready` once on `s`: Some(true) ready, Some(false) refused (Pending) and the waker fired,
 /// None = Pending without a wake-up (nobody would ever poll again) or an error.
-fn ready_once(s: &mut Svc) -> Option<bool> {
+fn ready_once<A: Alg>(s: &mut Svc<A>) -> Option<bool> {
     let flag = Arc::new(Flag::new(false));
     let w = Waker::from(flag.clone());
     let mut cx = Context::from_waker(&w);
-    match <Svc as Service<Req>>::poll_ready(s, &mut cx) {
+    match <Svc<A> as Service<Req>>::poll_ready(s, &mut cx) {
         Poll::Ready(Ok(())) => Some(true),
         Poll::Ready(Err(_)) => None,
         Poll::Pending => {
@@ -140,12 +215,12 @@ impl Rd {
 }
 
 /// `poll_ready` once on `s`; the inner service answers this poll with `ans` ('r' / 'p' / 'e') if it is asked
-fn ready_scripted(shared: &Arc<Mutex<InnerShared>>, s: &mut Svc, ans: char) -> Rd {
+fn ready_scripted<A: Alg>(shared: &Arc<Mutex<InnerShared>>, s: &mut Svc<A>, ans: char) -> Rd {
     shared.lock().unwrap().ready_script = VecDeque::from(vec![ans]);
     let flag = Arc::new(Flag::new(false));
     let w = Waker::from(flag.clone());
     let mut cx = Context::from_waker(&w);
-    let r = <Svc as Service<Req>>::poll_ready(s, &mut cx);
+    let r = <Svc<A> as Service<Req>>::poll_ready(s, &mut cx);
     let asked = {
         let mut sh = shared.lock().unwrap();
         let a = sh.ready_script.is_empty();
@@ -169,7 +244,7 @@ fn ready_scripted(shared: &Arc<Mutex<InnerShared>>, s: &mut Svc, ans: char) -> R
 
 /// `Service::call` on `svc` for caller `c`; with `callpanic=1` the wrapped service's `call()` panics: the unwind is
 /// caught here (the caller survives and the limiter stays in use), the caller never gets a future
-fn call_on(svc: &mut Svc, c: usize, kv: &Kv) -> Option<CallFut> {
+fn call_on<A: Alg>(svc: &mut Svc<A>, c: usize, kv: &Kv) -> Option<CallFut> {
     let mut req = Req::new(c, kv);
     if kv.u64("callpanic", 0) == 1 {
         req.tag = CALL_PANIC;
@@ -228,61 +303,88 @@ fn parse_tprog(s: &str) -> Vec<TOp> {
 }
 
 /// One thread with its own clone. Every operation begins with an explicit yield point; the call futures the thread
-/// still holds when its program ends are handed back through `left`.
-fn thread_body(mut svc: Svc, tid: usize, prog: Vec<TOp>, left: Arc<Mutex<Vec<Fut>>>) -> Vec<String> {
+/// still holds when its program ends are handed back through `left`. The begin / end of every operation is marked in
+/// the value-level trace: `A` (result 1 = admitted), `Cs` / `Cf` / `Cp` (the oldest call it holds completes / fails /
+/// panics), `D+` (drops it), `C-` / `D-` (holds none), `I`, and the feedback operations as in `mw_limit`.
+fn thread_body<A: Alg>(mut svc: Svc<A>, tid: usize, prog: Vec<TOp>, left: Arc<Mutex<Vec<Fut>>>) -> Vec<String> {
     let w = Waker::from(Arc::new(Flag::new(false)));
     let mut cx = Context::from_waker(&w);
-    let mut calls: VecDeque<Fut> = VecDeque::new();
+    let mut calls: VecDeque<(Fut, &'static str)> = VecDeque::new();
     let mut out = Vec::new();
     let mut nacq = 0;
     for op in prog {
         tower_resilience_core::verif::yield_point();
         match op {
-            TOp::Acquire(plan) => match <Svc as Service<Req>>::poll_ready(&mut svc, &mut cx) {
-                Poll::Ready(Ok(())) => {
-                    let c = 1000 * (tid + 1) + nacq;
-                    nacq += 1;
-                    let word = format!("inner={}", plan);
-                    calls.push_back(svc.call(Req::new(c, &Kv::parse(&[word.as_str()]))));
-                }
-                _ => out.push("x".to_string()),
-            },
+            TOp::Acquire(plan) => {
+                atrace_push(format!("b{}:A", tid));
+                let adm = match <Svc<A> as Service<Req>>::poll_ready(&mut svc, &mut cx) {
+                    Poll::Ready(Ok(())) => {
+                        let c = 1000 * (tid + 1) + nacq;
+                        nacq += 1;
+                        let word = format!("inner={}", plan);
+                        calls.push_back((svc.call(Req::new(c, &Kv::parse(&[word.as_str()]))), plan));
+                        1
+                    }
+                    _ => {
+                        out.push("x".to_string());
+                        0
+                    }
+                };
+                atrace_push(format!("e{}:A:{}", tid, adm));
+            }
             TOp::Finish => {
-                if let Some(mut f) = calls.pop_front() {
+                let code = match calls.front() {
+                    Some((_, "0:ok")) => "Cs",
+                    Some((_, "0:panic")) => "Cp",
+                    Some(_) => "Cf",
+                    None => "C-",
+                };
+                atrace_push(format!("b{}:{}", tid, code));
+                if let Some((mut f, _)) = calls.pop_front() {
                     let _ = catch_unwind(AssertUnwindSafe(|| {
                         let _ = Pin::new(&mut f).poll(&mut cx);
                     }));
                     let _ = catch_unwind(AssertUnwindSafe(move || drop(f)));
                 }
+                atrace_push(format!("e{}:{}:-", tid, code));
             }
             TOp::DropCall => {
-                if let Some(f) = calls.pop_front() {
+                let code = if calls.is_empty() { "D-" } else { "D+" };
+                atrace_push(format!("b{}:{}", tid, code));
+                if let Some((f, _)) = calls.pop_front() {
                     drop(f);
                 }
+                atrace_push(format!("e{}:{}:-", tid, code));
             }
-            TOp::ReadInFlight => out.push(svc.in_flight().to_string()),
-            TOp::Fb(f) => out.extend(run_prog(svc.algorithm(), &[f])),
+            TOp::ReadInFlight => {
+                atrace_push(format!("b{}:I", tid));
+                let n = svc.in_flight();
+                atrace_push(format!("e{}:I:{}", tid, n));
+                out.push(n.to_string())
+            }
+            TOp::Fb(f) => out.extend(run_prog_traced(svc.algorithm(), tid, &[f])),
         }
     }
-    *left.lock().unwrap() = calls.into_iter().collect();
+    *left.lock().unwrap() = calls.into_iter().map(|(f, _)| f).collect();
     out
 }
 
-impl Mw for Adapter {
+impl<A: Alg> Mw for Adapter<A> {
     fn arrive(&mut self, c: usize, kv: &Kv) -> Option<CallFut> {
         self.arrived.insert(c);
+        let k = *self.home.entry(c).or_insert(svc_of(kv));
         if let Some(mut svc) = self.checked.remove(&c) {
             return call_on(&mut svc, c, kv);
         }
         let h = kv.u64("h", 0) as usize;
         if h > 0 {
-            // the caller uses the persistent handle h
-            if !self.handles.contains_key(&h) {
-                let s = self.svc.clone();
-                self.handles.insert(h, (s, false));
+            // the caller uses the persistent handle h of service k
+            if !self.handles.contains_key(&(k, h)) {
+                let s = self.svc(k).clone();
+                self.handles.insert((k, h), (s, false));
             }
             let shared = self.shared.clone();
-            let e = self.handles.get_mut(&h).unwrap();
+            let e = self.handles.get_mut(&(k, h)).unwrap();
             if !e.1 {
                 let a = ready_scripted(&shared, &mut e.0, ans_of(kv));
                 if a != Rd::Ready {
@@ -300,7 +402,7 @@ impl Mw for Adapter {
             return call_on(&mut e.0, c, kv);
         }
         let mut svc = {
-            let mut s = self.svc.clone();
+            let mut s = self.svc(k).clone();
             match ready_once(&mut s) {
                 Some(true) => s,
                 Some(false) => {
@@ -315,23 +417,31 @@ impl Mw for Adapter {
         };
         call_on(&mut svc, c, kv)
     }
-    fn probe(&mut self, what: &str, _kv: &Kv) {
+    fn probe(&mut self, what: &str, kv: &Kv) {
+        let k = svc_of(kv);
+        let sfx = svc_suffix(k);
         match what {
-            "in_flight" => log(format!("probe in_flight = {}", self.svc.in_flight())),
-            "limit" => log(format!("probe limit = {}", self.svc.limit())),
+            "in_flight" => log(format!("probe in_flight = {}{}", self.svc(k).in_flight(), sfx)),
+            "limit" => log(format!("probe limit = {}{}", self.svc(k).limit(), sfx)),
+            // the accessors of the algorithm every service of the layer shares
+            "bounds" => {
+                let a = self.svc(k).algorithm();
+                log(format!("probe bounds = {},{}{}", a.min_limit(), a.max_limit(), sfx))
+            }
             "ready" => {
-                let mut s = self.svc.clone();
+                let mut s = self.svc(k).clone();
                 let r = match ready_once(&mut s) {
                     Some(true) => "1",
                     Some(false) => "0",
                     None => "lost-wakeup",
                 };
-                log(format!("probe ready = {}", r));
+                log(format!("probe ready = {}{}", r, sfx));
             }
             _ => {}
         }
     }
     fn manual(&mut self, what: &str, kv: &Kv) {
+        let k = svc_of(kv);
         match what {
             "check" => {
                 let c = kv.u64("c", 0) as usize;
@@ -339,7 +449,8 @@ impl Mw for Adapter {
                     log("noop".to_string());
                     return;
                 }
-                let mut s = self.svc.clone();
+                let k = *self.home.entry(c).or_insert(k);
+                let mut s = self.svc(k).clone();
                 match ready_once(&mut s) {
                     Some(true) => {
                         self.checked.insert(c, s);
@@ -351,48 +462,62 @@ impl Mw for Adapter {
             }
             "ready" => {
                 let h = kv.u64("h", 0) as usize;
-                if !self.handles.contains_key(&h) {
-                    let s = self.svc.clone();
-                    self.handles.insert(h, (s, false));
+                if !self.handles.contains_key(&(k, h)) {
+                    let s = self.svc(k).clone();
+                    self.handles.insert((k, h), (s, false));
                 }
                 let shared = self.shared.clone();
-                let e = self.handles.get_mut(&h).unwrap();
+                let e = self.handles.get_mut(&(k, h)).unwrap();
                 let a = ready_scripted(&shared, &mut e.0, ans_of(kv));
                 e.1 = a == Rd::Ready;
                 log(format!("ready {} {}", h, a.word()));
             }
             "warm" => {
-                let o = run_prog(self.svc.algorithm(), &parse_prog(&kv.str("prog", "")));
+                let o = traced_sequential(self.svc(k).algorithm(), &parse_prog(&kv.str("prog", "")));
                 log(format!("warm {}", render_outs(&o)));
-                log(format!("limit {}", self.svc.limit()));
+                log(format!("limit {}", self.svc(k).limit()));
+                log("trace-ok".to_string());
             }
             "thread" => {
                 let t = kv.u64("t", 0) as usize;
-                while self.progs.len() <= t {
-                    self.progs.push(String::new());
+                let progs = self.progs.entry(k).or_default();
+                while progs.len() <= t {
+                    progs.push(String::new());
                 }
-                self.progs[t] = kv.str("prog", "");
+                progs[t] = kv.str("prog", "");
             }
             "sched" => {
                 let schedule: Vec<usize> =
                     kv.str("s", "").split(',').filter(|x| !x.is_empty()).filter_map(|x| x.parse().ok()).collect();
                 let mut bodies: Vec<Box<dyn FnOnce() -> Vec<String> + Send>> = Vec::new();
                 let mut lefts = Vec::new();
-                for (tid, p) in std::mem::take(&mut self.progs).into_iter().enumerate() {
-                    let svc = self.svc.clone();
+                let _ = atrace_take();
+                // which cells are the limit and the in-flight counter: the ones `limit()` / `in_flight()` load
+                let base = self.svc(k).clone();
+                let lc = probe_cell(99, "L", || base.limit() as u64);
+                let ic = probe_cell(99, "I", || base.in_flight() as u64);
+                for (tid, p) in self.progs.remove(&k).unwrap_or_default().into_iter().enumerate() {
+                    let svc = base.clone();
                     let left: Arc<Mutex<Vec<Fut>>> = Arc::new(Mutex::new(Vec::new()));
                     lefts.push(left.clone());
                     bodies.push(Box::new(move || thread_body(svc, tid, parse_tprog(&p), left)));
                 }
                 let (_, outs) = run_scheduled_with(bodies, &schedule, |l| log(l.to_string()));
+                observe_here(99);
                 for (i, o) in outs.iter().enumerate() {
                     log(format!("th {} {}", i, render_outs(o)));
                     let fs: Vec<Fut> = std::mem::take(&mut *lefts[i].lock().unwrap());
                     for f in fs {
+                        // what a thread still holds is dropped here: an ending operation like any other
+                        atrace_push("b99:D+".to_string());
                         drop(f);
+                        atrace_push("e99:D+:-".to_string());
                     }
                 }
-                log(format!("limit {}", self.svc.limit()));
+                unobserve_here();
+                obs("tr", trace_text(lc, ic));
+                log(format!("limit {}", self.svc(k).limit()));
+                log("trace-ok".to_string());
             }
             _ => {}
         }
